@@ -128,10 +128,30 @@ func c06Mirror(r *core.Report, ruleID string) {
 			bad := ""
 			ast.Inspect(rs.Body, func(nn ast.Node) bool {
 				if ifs, ok := nn.(*ast.IfStmt); ok {
-					for f := range ff.Roots(ifs.Cond, false).Fields {
+					rs2 := ff.Roots(ifs.Cond, false)
+					for f := range rs2.Fields {
 						if strings.HasSuffix(f.Name(), "ValidationDisabled") {
 							bad = render(p.Fset, ifs.Cond)
 						}
+					}
+					// helpers the condition calls (settings methods): the fields they read
+					for callee := range rs2.Funcs {
+						if !core.InRepo(callee.Pkg()) {
+							continue
+						}
+						cd := p.Decl(callee)
+						if cd == nil || cd.Body == nil {
+							continue
+						}
+						cinfo := p.InfoFor(callee.Pkg())
+						ast.Inspect(cd.Body, func(m ast.Node) bool {
+							if sel, ok := m.(*ast.SelectorExpr); ok {
+								if f := core.FieldSel(cinfo, sel); f != nil && strings.HasSuffix(f.Name(), "ValidationDisabled") {
+									bad = render(p.Fset, ifs.Cond) + " (through " + callee.Name() + ")"
+								}
+							}
+							return true
+						})
 					}
 				}
 				return true
